@@ -74,6 +74,28 @@ func runReplay(args []string) int {
 		Ops      []Op   `json:"ops"`
 	}
 	json.Unmarshal(rf.Trace, &sched)
+	var gc struct {
+		Case *int   `json:"case"`
+		Tier string `json:"tier"`
+		Name string `json:"name"`
+	}
+	json.Unmarshal(rf.Trace, &gc)
+	if mk, ok := genLists[rf.Property]; ok && gc.Case != nil && gc.Tier != "" {
+		// a case of an enumerated case list: run it again (in this process, without the worker's limits)
+		cl := mk(gc.Tier)
+		if *gc.Case >= cl.N || (cl.Name != nil && gc.Name != "" && cl.Name(*gc.Case) != gc.Name) {
+			fmt.Println("the case list has changed since the replay file was written; recorded case:", gc.Name)
+			return 2
+		}
+		fmt.Println("re-running case", *gc.Case, ":", cl.Name(*gc.Case))
+		r := cl.Run(*gc.Case)
+		if r.Status == "violation" {
+			fmt.Printf("VIOLATION reproduced: %s: %s\n", r.Sig, r.Detail)
+		} else {
+			fmt.Println("result:", r.Status)
+		}
+		return 0
+	}
 	switch {
 	case sched.Scenario != "" && sched.Choices != nil:
 		for _, tier := range []string{"quick", "thorough"} {
